@@ -552,30 +552,91 @@ theorem FreshNode.mono {lo hi lo' hi' : Nat} {n : INode} (h : FreshNode lo hi n)
 def FreshFn (f : MergeFn) : Prop :=
   ∀ a b s, Ext s.next s (f a b s).2 ∧ ∀ m, (f a b s).1 = some m → FreshNode s.next (f a b s).2.next m
 
+theorem fwStep_key (seeds : Bool) (env : List (Nat × Nat × Str)) (w : FW) (i : Nat) (t p : Str) :
+    w.key ≤ (fwStep seeds env w i t p).key := by
+  unfold fwStep
+  split
+  · exact Nat.le_refl _
+  · split
+    · simp only
+      split
+      · exact Nat.le_refl _
+      · split
+        · exact Nat.le_refl _
+        · exact Nat.le_succ _
+    · exact Nat.le_refl _
+
+mutual
+theorem fwNode_key (seeds : Bool) (env : List (Nat × Nat × Str)) :
+    ∀ (n : INode) (w : FW), w.key ≤ (fwNode seeds env w n).key
+  | .mk i t v p ks, w => by
+    rw [fwNode]
+    exact Nat.le_trans (fwStep_key seeds env w i t p) (fwList_key seeds env ks _)
+theorem fwList_key (seeds : Bool) (env : List (Nat × Nat × Str)) :
+    ∀ (ks : List INode) (w : FW), w.key ≤ (fwList seeds env w ks).key
+  | [], w => by rw [fwList]; exact Nat.le_refl _
+  | k :: ks, w => by
+    rw [fwList]
+    exact Nat.le_trans (fwNode_key seeds env k w) (fwList_key seeds env ks _)
+end
+
+theorem fwKids_key (seeds : Bool) (env : List (Nat × Nat × Str)) :
+    ∀ (ks : List INode) (w : FW), w.key ≤ (fwKids seeds env w ks).key := by
+  intro ks
+  induction ks with
+  | nil => intro w; exact Nat.le_refl _
+  | cons k ks ih =>
+    intro w
+    rw [fwKids]
+    exact Nat.le_trans (fwNode_key seeds env k { w with fam := none, seen := [] }) (ih _)
+
+/-- what a finished walk does to the allocation counter and the write log -/
+theorem afterWalk_fresh (st : MSt) (n : INode) (w : FW)
+    (hk : (copyTree st.next n).2.1 ≤ w.key) :
+    Ext st.next st (st.afterWalk st.next (copyTree st.next n).2.2 w) ∧
+    FreshNode st.next (st.afterWalk st.next (copyTree st.next n).2.2 w).next (copyTree st.next n).1 ∧
+    st.next < (st.afterWalk st.next (copyTree st.next n).2.2 w).next := by
+  have h := copyTree_ids st.next n
+  have h1 := h.1
+  have e : (st.afterWalk st.next (copyTree st.next n).2.2 w).next = w.key := rfl
+  have e2 : (st.afterWalk st.next (copyTree st.next n).2.2 w).writes =
+      st.writes ++ (copyTree st.next n).2.2 := rfl
+  refine ⟨⟨by rw [e]; omega, ?_⟩, ?_, by rw [e]; omega⟩
+  · intro x hx
+    rw [e2] at hx
+    rcases List.mem_append.mp hx with hx | hx
+    · exact Or.inl hx
+    · exact Or.inr (h.2.2 x hx).1
+  · intro i hi
+    have := h.2.1 i hi
+    rw [e]
+    omega
+
+theorem copyM_walk_key (n : INode) (st : MSt) :
+    (copyTree st.next n).2.1 ≤
+      (fwNode copySeeds st.famOf ⟨none, [], 0, (copyTree st.next n).2.1, [], [], true⟩ n).key :=
+  fwNode_key copySeeds st.famOf n ⟨none, [], 0, (copyTree st.next n).2.1, [], [], true⟩
+
 theorem copyM_fresh (n : INode) (st : MSt) :
     Ext st.next st (copyM n st).2 ∧ FreshNode st.next (copyM n st).2.next (copyM n st).1 := by
-  have h := copyTree_ids st.next n
-  refine ⟨⟨by simp only [copyM]; omega, ?_⟩, ?_⟩
-  · intro w hw
-    simp only [copyM, List.mem_append] at hw
-    rcases hw with hw | hw
-    · exact Or.inl hw
-    · exact Or.inr (h.2.2 w hw).1
-  · intro i hi
-    simpa [copyM] using h.2.1 i hi
+  have := afterWalk_fresh st n _ (copyM_walk_key n st)
+  exact ⟨this.1, this.2.1⟩
+
+theorem copyM_next (n : INode) (st : MSt) : st.next < (copyM n st).2.next :=
+  (afterWalk_fresh st n _ (copyM_walk_key n st)).2.2
 
 theorem copyChildM_fresh (t : Str) (n : INode) (st : MSt) :
     Ext st.next st (copyChildM t n st).2 ∧
       FreshNode st.next (copyChildM t n st).2.next (copyChildM t n st).1 := by
-  have h := copyTree_ids st.next n
-  refine ⟨⟨by simp only [copyChildM]; omega, ?_⟩, ?_⟩
-  · intro w hw
-    simp only [copyChildM, List.mem_append] at hw
-    rcases hw with hw | hw
-    · exact Or.inl hw
-    · exact Or.inr (h.2.2 w hw).1
-  · intro i hi
-    simpa [copyChildM] using h.2.1 i hi
+  simp only [copyChildM]
+  split
+  · have hk : (copyTree st.next n).2.1 ≤ (fwKids copySeeds st.famOf
+        ⟨none, [], 1, (copyTree st.next n).2.1, [], [], true⟩ n.kids).key :=
+      fwKids_key copySeeds st.famOf n.kids ⟨none, [], 1, (copyTree st.next n).2.1, [], [], true⟩
+    have := afterWalk_fresh st n _ hk
+    exact ⟨this.1, this.2.1⟩
+  · have := afterWalk_fresh st n _ (copyM_walk_key n st)
+    exact ⟨this.1, this.2.1⟩
 
 theorem copyLeft_fresh (fl : MergeFlags) (hfl : fl.sliceCopyLeft = true) :
     ∀ (l : List (Nat × INode)) (st : MSt),
@@ -837,7 +898,7 @@ theorem mergeNodesF_fresh (fuel : Nat) :
       simp only [INode.ids, List.mem_cons] at hi
       rcases hi with rfl | hi
       · have hid : (copyM l st).1.id = st.next := hroot.1
-        have hlt : st.next < (copyM l st).2.next := (copyTree_ids st.next l).1
+        have hlt : st.next < (copyM l st).2.next := copyM_next l st
         exact ⟨Nat.le_of_eq hid.symm,
           Nat.lt_of_le_of_lt (Nat.le_of_eq hid) (Nat.lt_of_lt_of_le hlt hfr.1.1)⟩
       · exact hfr.2 i hi
